@@ -250,7 +250,16 @@ func c11Compare(out *simdjson.ParsedJson, d *c11Doc) string {
 		return ""
 	}
 	got, err := walk.Into(out)
-	return cmpRoots(d.model, got, err, false)
+	if diff := cmpRoots(d.model, got, err, false); diff != "" {
+		return diff
+	}
+	// and through the Advance route, whose recycled Object/Array destinations have just been
+	// used on documents with another string layout (parsed: Strings.B, deserialized: Message)
+	got, err = walk.Adv(out)
+	if diff := cmpRoots(d.model, got, err, false); diff != "" {
+		return "Advance route: " + diff
+	}
+	return ""
 }
 
 // c11Program: a seeded history over two serializers and a pool of destinations.
@@ -335,15 +344,30 @@ func (w *W) c11Program(k int, emit func(blob, dump []byte)) {
 			}
 		}
 		// occasionally a corrupt blob in between (failure history on B and the destination)
+		var damagedAfter []byte
 		di := r.Intn(len(dsts))
 		if r.Chance(1, 5) && len(blob) > 12 {
 			bad := append([]byte{}, blob[:len(blob)/2]...)
-			if r.Bool() {
+			switch r.Intn(3) {
+			case 0:
 				// a late error: everything but the last bytes is intact
 				bad = append([]byte{}, blob[:len(blob)-1-r.Intn(8)]...)
+			case 1:
+				// framing intact, payload damaged: the failure comes from inside a block decoder
+				// (s2/zstd), not from the header checks
+				bad = append([]byte{}, blob...)
+				for k := 0; k < 3; k++ {
+					bad[len(bad)/3+r.Intn(len(bad)-len(bad)/3)] ^= byte(1 + r.Intn(255))
+				}
 			}
-			walk.Guard(func() error { B.Deserialize(bad, dsts[di]); return nil })
-			trace = append(trace, "deser(truncated)")
+			if r.Bool() {
+				walk.Guard(func() error { B.Deserialize(bad, dsts[di]); return nil })
+				trace = append(trace, "deser(damaged)")
+			} else {
+				// after this step's valid blob: the failure is then the last thing this Serializer
+				// did before the next step's blob, which may be of any mode
+				damagedAfter = bad
+			}
 		}
 		B.CompressMode(dm)
 		var out *simdjson.ParsedJson
@@ -395,6 +419,11 @@ func (w *W) c11Program(k int, emit func(blob, dump []byte)) {
 				return
 			}
 			w.Count("second_generation_round_trips", 1)
+		}
+		if damagedAfter != nil {
+			walk.Guard(func() error { B.Deserialize(damagedAfter, nil); return nil })
+			trace = append(trace, "deser(damaged)")
+			damagedAfter = nil
 		}
 		w.Count(fmt.Sprintf("pair_enc%d_dec%d", em, dm), 1)
 		w.SetAdd("documents", genClass(d.name))
